@@ -5,6 +5,7 @@ Driver for C05 (port endpoint maps): `Uniflow.PortMaps` at yield-point granulari
   run t                                  thread t is released and runs to its next yield point
         → y<site> | ret unit | ret sentinel | ret ep open | ret ep closed | blocked | bad-op
   seq open q p | close q | exit p        one whole operation, run to completion on a scratch thread → ok
+  pumps                                  → open=k   (endpoints created and not closed: running pump goroutines)
   obs nports nprocs                      → sizes=a,b,…   (entries of every port among processes 0..nprocs-1)
 -/
 import Uniflow.Driver.Core
@@ -64,6 +65,7 @@ def stepLine (s : State) : List String → State × String
     | some c =>
       if s.thr seqTid = .idle then (runSeq 64 (apply s (.call seqTid c)), "ok") else (s, "bad-op")
     | none => (s, "bad-op")
+  | ["pumps"] => (s, s!"open={openEndpoints s}")
   | ["obs", nq, np] =>
     match nq.toNat?, np.toNat? with
     | some nq, some np => (s, "sizes=" ++ ",".intercalate ((List.range nq).map (fun q => toString (size s q np))))
